@@ -27,6 +27,7 @@ struct RunResult {
 	uint64_t hash = 0;      // trace hash
 	uint64_t nt = 0;        // non-trivial-case key (0 = trivial)
 	J counters = J::obj();  // flat name -> int, summed by the driver
+	std::vector<int> tape;  // recorded schedule (only when the plan asks for it)
 	void fail(const std::string &c,const std::string &m,const std::string &f = "") { if(ok) { ok = false; cls = c; msg = m; fp = f.empty() ? c : f; } }
 };
 
@@ -54,8 +55,8 @@ static int g_result_fd = -1;        // child: where the result JSON goes
 static bool g_in_child = false;
 static std::string g_scratch;
 
-inline J result_json(const RunResult &r){ J j = J::obj(); j["ok"] = r.ok; j["cls"] = r.cls; j["msg"] = r.msg; j["fp"] = r.fp; j["hash"] = (unsigned long long)r.hash; j["nt"] = (unsigned long long)r.nt; j["counters"] = r.counters; return j; }
-inline RunResult result_from(const J &j){ RunResult r; r.ok = j.geti("ok"); r.cls = j.gets("cls"); r.msg = j.gets("msg"); r.fp = j.gets("fp"); r.hash = (uint64_t)j.geti("hash"); r.nt = (uint64_t)j.geti("nt"); r.counters = j.get("counters"); return r; }
+inline J result_json(const RunResult &r){ J j = J::obj(); if(!r.tape.empty()){ J t = J::arr(); for(int x:r.tape) t.push(x); j["tape"] = t; } j["ok"] = r.ok; j["cls"] = r.cls; j["msg"] = r.msg; j["fp"] = r.fp; j["hash"] = (unsigned long long)r.hash; j["nt"] = (unsigned long long)r.nt; j["counters"] = r.counters; return j; }
+inline RunResult result_from(const J &j){ RunResult r; { const J &t = j.get("tape"); for(size_t i=0;i<t.size();i++) r.tape.push_back((int)t.a[i].as_int()); } r.ok = j.geti("ok"); r.cls = j.gets("cls"); r.msg = j.gets("msg"); r.fp = j.gets("fp"); r.hash = (uint64_t)j.geti("hash"); r.nt = (uint64_t)j.geti("nt"); r.counters = j.get("counters"); return r; }
 
 static std::string *g_cur_seed_line = nullptr;
 inline void fatal_cb(const char *cls,const std::string &msg){
@@ -78,8 +79,11 @@ inline RunResult run_forked(Engine &e,const J &plan,int timeout_s = 40){   // a 
 		if(!getenv("SIMK_KEEP_STDERR")){ int ef = open(errf.c_str(),O_WRONLY|O_CREAT|O_TRUNC,0600); if(ef >= 0){ dup2(ef,2); close(ef); } }
 		alarm(getenv("VERIF_RUN_TIMEOUT") ? atoi(getenv("VERIF_RUN_TIMEOUT")) : timeout_s);
 		RunResult r;
+		{ const J &sch = plan.get("sched"); if(sch.is_obj()){ size_t len = (size_t)std::max<int64_t>(0,std::min<int64_t>(sch.geti("len"),50000000)); std::vector<int> t(len,simk::SCHED_DEFAULT); const J &sw = sch.get("switches"); for(size_t i=0;i<sw.size();i++) if(sw.a[i].size() >= 2){ int64_t at = sw.a[i].a[0].as_int(); if(at >= 0 && (size_t)at < len) t[(size_t)at] = (int)sw.a[i].a[1].as_int(); } simk::set_guided_tape(t); }
+		  if(plan.geti("record_schedule")) simk::set_record_schedule(true); }
 		try { r = e.run(plan); }
 		catch(std::exception const &ex){ r.fail("harness-exception",ex.what()); }
+		if(plan.geti("record_schedule")) r.tape = simk::recorded_schedule();
 		{ const std::string &t = simk::trace_text(); if(!t.empty()) r.msg += "\nTRACE(tail):\n" + (t.size() > 12000 ? t.substr(t.size()-12000) : t); }
 		std::string s = result_json(r).str();
 		size_t off = 0; while(off < s.size()){ ssize_t n = ::write(pfd[1],s.data()+off,s.size()-off); if(n <= 0) break; off += n; }
@@ -173,6 +177,23 @@ struct Shrinker {
 		}
 		return progress;
 	}
+	// ---- schedule minimisation: record the failing schedule, replay it as an explicit tape, cut it short, then turn as many
+	// entries as possible into "default" (keep running the same thread); what remains are the context switches that matter
+	static J with_sched(const J &plan,const std::vector<int> &t){ J q = plan; J sch = J::obj(); sch["len"] = (long long)t.size(); J sw = J::arr(); for(size_t i=0;i<t.size();i++) if(t[i] != simk::SCHED_DEFAULT){ J e2 = J::arr(); e2.push((long long)i); e2.push(t[i]); sw.push(e2); } sch["switches"] = sw; q["sched"] = sch; return q; }
+	J shrink_schedule(const J &plan,int *switches_before = nullptr,int *switches_after = nullptr){
+		if(plan.has("sched")) return plan;
+		J rec = plan; rec["record_schedule"] = 1; if(runs >= budget || wall() > deadline) return plan; runs++;
+		RunResult r = run_forked(e,rec); if(r.ok || r.cls != cls || r.tape.size() < 2 || r.tape.size() > 400000) return plan;
+		std::vector<int> T = r.tape; int sw0 = 0; for(size_t i=1;i<T.size();i++) if(T[i] != T[i-1]) sw0++; if(switches_before) *switches_before = sw0;
+		if(!fails(with_sched(plan,T))) return plan;                       // an explicit tape must reproduce the failure, else leave the seed-based schedule
+		size_t lo = 0, hi = T.size(); while(lo < hi && runs < budget && wall() < deadline){ size_t mid = lo + (hi-lo)/2; std::vector<int> t(T.begin(),T.begin()+mid); if(fails(with_sched(plan,t))) hi = mid; else lo = mid + 1; }
+		{ std::vector<int> t(T.begin(),T.begin()+hi); if(hi < T.size() && fails(with_sched(plan,t))) T = t; }
+		for(size_t chunk = std::max<size_t>(1,T.size()/2); chunk >= 1 && runs < budget && wall() < deadline; chunk = chunk > 1 ? (chunk+1)/2 : 0){
+			for(size_t st = 0; st < T.size() && runs < budget && wall() < deadline; st += chunk){ bool any = false; std::vector<int> t = T; for(size_t i=st;i<st+chunk && i<t.size();i++) if(t[i] != simk::SCHED_DEFAULT){ t[i] = simk::SCHED_DEFAULT; any = true; } if(any && fails(with_sched(plan,t))) T = t; }
+			if(chunk == 1) break; }
+		int sw1 = 0; for(size_t i=0;i<T.size();i++) if(T[i] != simk::SCHED_DEFAULT) sw1++; if(switches_after) *switches_after = sw1;
+		return with_sched(plan,T);
+	}
 	J shrink(J plan){ for(int round=0; round<6; round++){ bool a = shrink_arrays(plan); bool b = shrink_scalars(plan); if(!a && !b) break; if(runs >= budget || wall() > deadline) break; } return plan; }
 };
 
@@ -181,7 +202,7 @@ inline std::string slurp(const std::string &p){ std::ifstream f(p); std::strings
 inline int main_impl(int argc,char **argv,Engine &e,const char *engine_name){
 	std::string mode,prop,tier = "quick",replay,outdir = "/verif/replays";
 	uint64_t base = 1; long from = 0,count = 1000000000L,stride = 1; double seconds = 1e9; uint64_t seed = 0; bool have_seed = false; bool trace = false;
-	int shrink_budget = 400; double shrink_secs = 90;
+	int shrink_budget = 400; double shrink_secs = 90; int sched_budget = 250;
 	for(int i=1;i<argc;i++){ std::string a = argv[i]; auto nx = [&]{ return std::string(i+1<argc ? argv[++i] : ""); };
 		if(a == "--batch" || a == "--confirm" || a == "--replay" || a == "--plan") { mode = a; if(a == "--replay") replay = nx(); }
 		else if(a == "--prop") prop = nx(); else if(a == "--tier") tier = nx(); else if(a == "--base") base = strtoull(nx().c_str(),0,10);
@@ -233,10 +254,12 @@ inline int main_impl(int argc,char **argv,Engine &e,const char *engine_name){
 		if(r1.ok != r2.ok || r1.cls != r2.cls || r1.hash != r2.hash){ out["status"] = "nondeterministic"; out["r1"] = result_json(r1); out["r2"] = result_json(r2); printf("C %s\n",out.str().c_str()); return 2; }
 		Shrinker sh(e,r1.cls,shrink_budget,shrink_secs);
 		J small = sh.shrink(plan);
+		int sched_before = -1, sched_after = -1;
+		{ Shrinker ss(e,r1.cls,sched_budget,shrink_secs/2); J s2 = ss.shrink_schedule(small,&sched_before,&sched_after); sh.runs += ss.runs; RunResult r3 = run_forked(e,s2), r4 = run_forked(e,s2); if(!r3.ok && r3.cls == r1.cls && !r4.ok && r4.hash == r3.hash) small = s2; else sched_after = -1; }
 		RunResult rs = run_forked(e,small);
 		if(rs.ok || rs.cls != r1.cls){ small = plan; rs = r1; }
 		J rep = J::obj(); rep["engine"] = engine_name; rep["property"] = prop; rep["seed"] = (unsigned long long)seed; rep["idx"] = (long long)from; rep["base"] = (unsigned long long)base; rep["tier"] = tier; rep["class"] = rs.cls; rep["fingerprint"] = rs.fp; rep["message"] = rs.msg.substr(0,4000);
-		rep["trace_hash"] = (unsigned long long)rs.hash; rep["shrink_runs"] = sh.runs; rep["original_plan_bytes"] = (long long)plan.str().size(); rep["plan"] = small;
+		rep["trace_hash"] = (unsigned long long)rs.hash; rep["schedule_switches_recorded"] = sched_before; rep["schedule_explicit_choices_after_minimisation"] = sched_after; rep["shrink_runs"] = sh.runs; rep["original_plan_bytes"] = (long long)plan.str().size(); rep["plan"] = small;
 		std::string path = outdir + "/" + prop + "-" + std::to_string(seed) + ".json";
 		{ std::ofstream f(path); f << rep.str() << "\n"; }
 		out["status"] = "confirmed"; out["class"] = rs.cls; out["fingerprint"] = rs.fp; out["message"] = rs.msg.substr(0,1500); out["replay"] = path; out["shrink_runs"] = sh.runs;
